@@ -199,6 +199,18 @@ CHECKS["C11"] = dict(
          "trajectory, and continuing must reach the uninterrupted final state.",
     technique="Lean 4 invariant proof over all prefixes of protocol-conforming filesystem event sequences + kill-point fault injection on the real checkpointed solve",
     ref="§8 C11", note="Kill points are Python-level filesystem operations (mkdir/rename/unlink/rmdir of Orbax) plus wall-clock kills; writes inside the temporary directory by tensorstore (C++) are covered only as 'kill before the commit rename'.")
+CHECKS["C20"] = dict(
+    text="Theorems: each of the five solver validators accepts exactly its documented domain (gamma in [0,1]; gamma = 1 for RVI; eps > 0; batch "
+         "size >= 1; period >= 1 and >= 2 when gamma = 1; evaluation budget >= 1; frequency, retention >= 0; verbosity 0..4; known convergence "
+         "test; problem a ProblemConfig or absent), a non-config problem is the only TypeError and every other rejection a ValueError; the four "
+         "problem validators accept exactly their documented domains; the outcome of construction + solve is the same function of the "
+         "configuration for the three routes and is ok on the whole valid domain; the threshold of a valid configuration is positive incl. "
+         "gamma = 0 and 1 (model of the repaired code - three defects fixed, see known_findings.json). Partial: dtype promotion, Hydra "
+         "instantiate and the OmegaConf round trip are runtime; the precision-order clause is observed in fresh processes and is a recorded "
+         "known finding. Tie: 5 solver classes x 3 routes x boundary values (gamma 0, 1e-12, 1-2^-53, 1; eps 1e-12..1e6; thresholds >= 100; "
+         "limits of every integer field; unknown test; non-config problem), identical results across routes, four problem configs field by field.",
+    technique="Lean 4 proofs that the validators decide exactly the documented domains + differential construction/solve runs over routes and boundary values",
+    ref="§8 C20", note="Hydra/OmegaConf and JAX dtype behaviour are runtime, observed only.")
 PENDING = {}
 
 
